@@ -226,6 +226,8 @@ def facts(src):
         summary[k] = got
         if got != w:
             problems.append('shape pin %s changed (%s -> %s): the hand-written model follows the previous text' % (k, w, got))
+    summary.update(c16facts.check_blind(src, os.path.join(HERE, 'pins_blind.json'), problems))
+    summary['response._BLOCK_SIZE'] = c16facts.block_size(src, problems)
     summary.update({k: (v if not isinstance(v, list) else list(v)) for k, v in vals.items()})
     _state_facts.clear()
     _state_facts.update(vals)
